@@ -10,4 +10,7 @@ func genAll() {
 	genMirrors()
 	genRouting()
 	genPersist()
+	genLockCalls()
+	genDerefs()
+	genListeners()
 }
